@@ -820,12 +820,13 @@ class Frame(object):
                 path = path(ts)
         elif isinstance(path, (list, np.ndarray)):
             path = np.array(path)
-            if path.shape != self.ts.shape:
+            if doppler_smearing:
+                if path.shape != (self.tchans + 1,):
+                    raise ValueError(f'To Doppler smear power, must provide '
+                                     f'path array with {self.tchans + 1} values')
+            elif path.shape != self.ts.shape:
                 raise ValueError(f'Shape of path array is {path.shape} '
                                  f'!= {self.ts.shape}.')
-            elif doppler_smearing and len(path) != self.tchans + 1:
-                raise ValueError(f'To Doppler smear power, must provide'
-                                 f'path array with {self.tchans + 1} values')
         elif isinstance(path, (int, float)):
             path = np.full(tchans_eff, path)
         else:
